@@ -225,6 +225,12 @@ class C20:
                                     m['center'][1], m['center'][2]])
                 b.emit('spheres_add', {'sc': h, 'member': {
                     'op': 'sphere', 'args': m}}, tags={'k': 'add'})
+            elif c < 0.68 and b.count('sc'):
+                # overlaps of a collection that may have been extended by
+                # Spheres.add since it was built
+                h, _ = b.pick('sc')
+                b.emit('overlap_query', {'sc': h},
+                       tags={'k': 'overlaps-live', 'live': True})
             elif c < 0.72:
                 members = rng.choice(pool)
                 b.emit('overlap_query',
@@ -329,7 +335,23 @@ class C20:
                                               else 'extra')))
             elif op == 'overlap_query' and rec['outcome'] == 'ok':
                 ex.stats['oracle_sampled'] += 1
-                members = ev['args']['sc']['args']['members']
+                if tags.get('live'):
+                    ref = rec['rargs']['sc'].get('ref')
+                    cev = ex.events_by_id.get(ref)
+                    if cev is None or cev['op'] != 'spheres':
+                        continue
+                    members = list(cev['args']['members'])
+                    for e2 in ex.run['events']:
+                        if e2.get('id') == ev['id']:
+                            break
+                        r2 = ex.records.get(e2.get('id'))
+                        if e2.get('op') == 'spheres_add' and r2 and \
+                                r2['outcome'] == 'ok' and \
+                                r2['rargs']['sc'].get('ref') == ref:
+                            members.append(e2['args']['member']['args'])
+                    ex.stats['oracle_sim'] += 1
+                else:
+                    members = ev['args']['sc']['args']['members']
                 want = analytic_overlaps(members)
                 p = dict(rec['payload']['__dict__'])
                 if sorted(map(tuple, p['overlaps'])) != \
